@@ -57,10 +57,15 @@ inductive SEv where
   | podAdd (sh : Shape) (p : Nat) (o : PodObj)
   | podUpdate (shOld shNew : Shape) (p : Nat) (old new : PodObj)
   | podDelete (sh : Shape) (p : Nat) (o : PodObj)
+  /-- an add / update / delete whose device-allocated annotation (of the object the handler parses) is not valid JSON:
+      `apiext.GetDeviceAllocations` fails and updatePod / deletePod return before touching the ledger — in an update
+      even the OLD object's allocation is not released -/
+  | unparsable (p : Nat)
 deriving Repr
 
 /-- event → ledger ops: the decoding is part of the model -/
 def sevOps : SEv → List Op
+  | .unparsable _ => []
   | .podAdd sh p o => if decodeObj sh then updatePodOps p none o else []
   | .podUpdate so sn p old new => if decodeObj so && decodeObj sn then updatePodOps p (some old) new else []
   | .podDelete sh p o => if decodeDelete sh then deletePodOps p o else []
